@@ -208,6 +208,9 @@ pub fn tri_case(args: &Args, prop: &str, idx: usize, gen: &CaseGen, c01_seeds: u
             return out;
         }
     };
+    if std::env::var("VERIF_LIST").is_ok() {
+        eprintln!("CASE {} {:?} {:?} {:?} :: {}", idx, case.inline, case.owners, case.outputs, case.prog.summary().chars().take(300).collect::<String>());
+    }
     let (c, refv) = match prepare(&mut stats, &case) {
         Some(x) => x,
         None => {
